@@ -236,6 +236,10 @@ func checkC06(run *Run, res *Result) {
 			if e.Off == nil || e.Vb < 0 || !isCkptKey(e.Key) {
 				continue
 			}
+			if e.S == "seed" {
+				gh(e.Vb)[offTuple(e.Off)] = true // left by an earlier session (the scenario's set-up)
+				continue
+			}
 			valid(e, "the written checkpoint", e.Off)
 			got := offTuple(e.Off)
 			if !gh(e.Vb)[got] {
